@@ -274,7 +274,7 @@ ADD7 = {
     "C04": ("; waiter result rule shared with C03.R4; operand audit of ref.EqualRepository / EqualRegistry", " Also: a child that waited for shared content learns whether that copy failed; 'same repository' is decided on the references' own fields."),
     "C06": ("; origin audit of the index reader's returns shared with C14.R9; control dependence of the index setter on the lookup", " Also: the index is read from the file on every call; a push always sets its index entry."),
     "C07": ("; who-may-remove audit over the reference graph shared with C08.R11; mark recursion rule shared with C08.R4", " Also: content is removed only by an explicit delete or by the sweep; the collector walks every entry whatever the mark set already holds."),
-    "C08": ("; who-may-remove audit over the reference graph; sibling agreement of the bookkeeping map keys; control dependence of the mark recursion on mark-set membership", " Also: only BlobDelete, ManifestDelete and the sweep remove files; every access to the GC bookkeeping builds its key the same way; the walk does not skip entries that are merely marked."),
+    "C08": ("; who-may-remove audit over the reference graph; sibling agreement of the bookkeeping map keys; control dependence of the mark recursion on mark-set membership; directory-class agreement between os.CreateTemp sites and the sweep", " Also: only BlobDelete, ManifestDelete and the sweep remove files; every access to the GC bookkeeping builds its key the same way; the walk does not skip entries that are merely marked; every directory a temp file is made in is swept (found D27)."),
     "C09": ("; close-error typestate of the archive writers the export creates; must-fail reachability of the Docker name lookup", " Also: the error of finishing the tar stream and the compressed stream reaches the caller of the export (found D20); a Docker import whose name lookup finds nothing fails (found D26)."),
     "C10": ("; second-invalidation clause of the cache coherence rule (a cache delete/set dominated by the lock, deferred or behind every rewrite of the tag)", " Also: a referrer-aware delete drops the cached list again after the fallback tag was rewritten (found D25)."),
     "C11": ("; backward slice from stores into secret fields (and from documents decoded into structs with secret fields) to the text they come from, met with the logger arguments", " Also: the string, map or response body a password or token is parsed out of does not reach the log (found D23)."),
